@@ -17,7 +17,10 @@ Inductive op :=
   | Rel (l : list iface)          (* release of the takeover of the listed interfaces *)
   | DispVol (p v : nat) | DispDev (p v : nat) | DispFocus (p v : nat)   (* state dispatched by protocol p *)
   | Run1                          (* the event loop runs the oldest scheduled call-back *)
-  | RunAll.                       (* the event loop runs everything scheduled so far *)
+  | RunAll                        (* the event loop runs everything scheduled so far *)
+  (* the user changes the volume through the facade: audio.set_volume(v) / volume_up() / volume_down();
+     the protocol serving audio applies it and announces the new level like a device-side change *)
+  | SetVol (v : nat) | VolUp | VolDown.
 
 Definition opt_eqb (a b : option nat) : bool :=
   match a, b with
